@@ -14,6 +14,7 @@ import (
 	"sort"
 	"strings"
 	"sync"
+	"sync/atomic"
 	"time"
 
 	"gorm.io/gorm"
@@ -63,6 +64,24 @@ type actor struct {
 	execDone bool // the execution of the current operation was already decided
 	execOut  int
 	wrong    int // executions that reached the driver with another text than the operation's
+	// barrier: set when the goroutine is started in a burst; it waits (spinning) right before gorm
+	// hands the statement to the cache until every goroutine of the burst got there, so that they
+	// enter PreparedStmtDB.prepare at the same moment even on a loaded machine
+	barrier *int32
+}
+
+// arrive is called from a gorm callback registered right before gorm:query / gorm:raw / gorm:row.
+func arrive(ctx context.Context) {
+	a := actorOf(ctx)
+	if a == nil || a.barrier == nil {
+		return
+	}
+	b := a.barrier
+	a.barrier = nil
+	atomic.AddInt32(b, -1)
+	for dl := time.Now().Add(30 * time.Millisecond); atomic.LoadInt32(b) > 0 && time.Now().Before(dl); {
+		runtime.Gosched()
+	}
 }
 
 type Step struct {
@@ -336,9 +355,11 @@ func (c *controller) run(script []Step) {
 			if len(burst) > 0 {
 				c.widths = append(c.widths, 1)
 				c.kinds = append(c.kinds, -1)
+				n := int32(len(burst))
 				for _, a := range burst {
 					c.log(Ev{K: "start", T: a.id})
 					a.status = stRunning
+					a.barrier = &n
 				}
 				c.version++
 				c.mu.Unlock()
